@@ -285,6 +285,68 @@ def count_spellings(asm):
     return a, b
 
 
+def cli_push0(run, rng):
+    """The command line itself (gasol_asm.py through harness/run_tool.py, as a subprocess): with `-push0` (PUSH0
+    disabled) neither the optimized file nor the file rebuilt from the log may contain an item named PUSH0 when the
+    input has none, and both files must be the same.  Inputs: the shipped contract and a synthesized document whose
+    blocks push zeros."""
+    import shutil
+    from harness import docgen
+    from harness.c11 import run_tool
+    work = os.path.join(common.WORK, "c17_%d" % os.getpid())
+    shutil.rmtree(work, ignore_errors=True)
+    os.makedirs(work)
+    evals = 0
+    try:
+        doc = docgen.document(rng.getrandbits(32), nblocks=6, with_noasm=False, max_len=12)
+        # make sure zero pushes occur in optimizable positions
+        for c in doc["contracts"].values():
+            code = c["asm"][".data"]["0"][".code"]
+            for k in (len(code) // 3, 2 * len(code) // 3):
+                code[k:k] = [docgen.item("PUSH", "0"), docgen.item("PUSH", "0"), docgen.item("ADD"), docgen.item("PUSH", "0"), docgen.item("MSTORE")]
+        synth = os.path.join(work, "zeros.json_solc")
+        docgen.dump(doc, synth)
+        for path in (synth, os.path.join(common.REPO, c08.CONTRACT)):
+            base = os.path.basename(path).split(".")[0]
+            with open(path) as fh:
+                inp = json.load(fh)
+            zin = sum(count_spellings(v["asm"])[0] for v in inp["contracts"].values() if v.get("asm"))
+            d = os.path.join(work, base)
+            os.makedirs(d)
+            outs = {}
+            rc, out = run_tool([path, "-greedy", "-push0", "-log"], d)
+            evals += 1
+            f1 = os.path.join(d, base + "_optimized.json_solc")
+            if rc != 0 or not os.path.exists(f1):
+                run.report({"kind": "whole-file-run-failed", "opts": "-greedy -push0 -log (cli)"}, "command line run failed: %s" % out[-300:],
+                           {"file": base, "output": out[-1500:]}, found_input=False)
+                continue
+            outs["optimized"] = open(f1).read()
+            rc, out = run_tool([path, "-greedy", "-push0", "-optimize-from-log", os.path.join(d, base + ".log")], d)
+            evals += 1
+            f2 = os.path.join(d, base + "_optimized_from_log.json_solc")
+            if rc == 0 and os.path.exists(f2):
+                outs["replayed"] = open(f2).read()
+            else:
+                run.report({"kind": "replay-fails-with-push0-disabled"}, "replaying the log with -push0 fails: %s" % out[-300:],
+                           {"file": base if path != synth else doc, "output": out[-1500:]}, found_input=True)
+            for which, txt in outs.items():
+                o = json.loads(txt)
+                a = sum(count_spellings(v["asm"])[0] for v in o["contracts"].values() if v.get("asm"))
+                if a > zin:
+                    run.report({"kind": "push0-emitted-while-disabled", "level": "cli-" + which},
+                               "%d items named PUSH0 in the %s file of a `-push0` run (input has %d)" % (a, which, zin),
+                               {"kind": "cli", "file": base if path != synth else doc, "which": which,
+                                "how": "gasol_asm.py <file> -greedy -push0 -log ; gasol_asm.py <file> -greedy -push0 -optimize-from-log <log>"},
+                               found_input=True)
+            if len(outs) == 2 and outs["optimized"] != outs["replayed"]:
+                run.report({"kind": "replay-differs-with-push0-disabled"}, "the file rebuilt from the log of a `-push0` run differs from the optimized file (%s)" % base,
+                           {"kind": "cli", "file": base if path != synth else doc}, found_input=True)
+    finally:
+        shutil.rmtree(work, ignore_errors=True)
+    return evals
+
+
 def whole_file(run):
     path = os.path.join(common.REPO, c08.CONTRACT)
     with open(path) as fh:
@@ -429,6 +491,7 @@ def check(run):
                 scan["enabled_zero_emitted"] += b
                 scan["enabled_mixed_blocks"] += bool(a and b)
     ev2, summary = whole_file(run)
+    ev2 += cli_push0(run, rng)
     evals += ev2
     run.cov["evaluations"] = evals
     run.cov["distinct_nontrivial"] = len(distinct)
